@@ -254,6 +254,19 @@ example :
   refine ⟨?_, by decide, by decide⟩
   simp [GoodHistory, NodupFn, Fresh, stampOf]
 
+/-- the executable statements are discriminating: a panic, a newest file that was not put in the table, a changed
+    sidecar that was not reloaded, a shard closed while a search still holds it, a half-applied batch are all rejected -/
+example :
+    let f : Bytes := [102, 95, 118, 49, 54, 46, 122]
+    checkVfp f (.panic "") = some "vfp-panic" ∧
+    checkScan 16 17 [⟨f, some 5, none⟩] [] (.ok ⟨[], [], []⟩) = some "scan-not-newest" ∧
+    checkScan 16 17 [⟨f, some 5, none⟩] [(f, (5, some 3))] (.ok ⟨[(f, (5, none))], [], []⟩) = some "scan-load-set" ∧
+    checkCow {} [.replaced [(7, true)] [(7, 0)], .began [(7, 0)], .replaced [(7, true)] [(7, 1)], .closed [0]]
+      = some "closed-while-referenced" ∧
+    checkCow {} [.replaced [(1, true), (2, true)] [(1, 0)]] = some "replace-wrong-set" ∧
+    checkCow {} [.replaced [(7, true)] [(7, 0)], .began [(7, 0)], .replaced [(7, true)] [(7, 1)], .ended 0, .closed [0]] = none := by
+  decide
+
 /-- replace under a running search: the search keeps version 0 of key 7, the published list has version 1, version 0
     cannot be finalized until the search ends, and can afterwards -/
 example :
